@@ -11,13 +11,14 @@ def run(report, tier):
     grid = []
     if tier == "quick":
         plan = [(P.P4(), 2, 0, None), (P.P5(), 2, 0, None), (P.P6(), 1, 0, None), (P.P11(), 2, 0, None),
-                (P.D5(), 0, 1, None), (P.P5w(), 1, 0, None), (P.P12(), 1, 0, None), (P.P13(), 0, 0, None)]
+                (P.D5(), 0, 1, None), (P.P5w(), 1, 0, None), (P.P12(), 1, 0, None), (P.P13(), 0, 0, None),
+                (P.J5(), 1, 1, None)]
         hs = [[a, empty], [empty, a], [a, empty, b], [b, emptyu, a], [empty, empty, a], [a, b, empty]]
         plan += [(P.history("H%d" % i, h), 2, 0, None) for i, h in enumerate(hs)]
         plan += [(Config("Q2", kind="factory", quota=2, workers=1, calls=[("imap", "list", 3, 1), ("imap_unordered", "list", 2, 1)]), 1, 0, None)]
     else:
         plan = [(P.P4(), None, 0, None), (P.P5(), 2, 0, None), (P.P6(), 2, 0, None), (P.P11(), None, 0, None),
-                (P.D5(), 1, 1, None), (P.D6(), 1, 1, None), (P.P5w(), 2, 0, None), (P.P12(), 2, 0, None), (P.P13(), 1, 0, None)]
+                (P.D5(), 1, 1, None), (P.D6(), 1, 1, None), (P.P5w(), 2, 0, None), (P.P12(), 2, 0, None), (P.P13(), 1, 0, None), (P.J5(), 2, 1, None)]
         k = 0
         for x in shapes:
             for y in shapes:
